@@ -55,6 +55,15 @@ def body(chk: core.Check):
         gc = _client.render(chk, everything=True)   # incl. samples/tests of the keyword-named RPC `Import`
         _client.run_funcs(chk, gc, ["flat_tag_book", "flat_classify_book"], "reserved-flattened-parameters", 300,
                           partitions=_client.KIND_PARTS)
+    if chk.only("rest-wire"):
+        # JSON keys of reserved-word REQUIRED fields on the REST wire: the emitted default table is keyed by the original
+        # name (`class`), not by the disambiguated attribute (`class_`) -- shared harness of C04 on the emitted rest_base.py
+        from lib import apis, gen
+        h4 = os.path.join(core.VERIF, "harness", "h04_rest.py")
+        g4 = gen.generate(apis.rest_api(), parameter="transport=grpc+rest")
+        chk.programs += 1
+        res4 = ch.run(h4, ["required_get"], timeout=300, env={"VERIF_EMITTED": g4.outdir, "VERIF_NUMERIC": "0"}, jobs=chk.jobs)
+        ch.settle(chk, h4, res4, "rest-wire-keys")
     if chk.only("names"):
         hm = ch.load_module(H)
         chk.encoded("gapic/schema/api.py: API.build.disambiguate_keyword_sanitize_fname (+ invalid_module_names)", hm.LIFTED_SRC)
@@ -83,6 +92,12 @@ def replay(chk, data):
         from lib import apis, gen
         g = gen.generate(apis.client_api(), parameter="transport=grpc+rest", service_yaml=apis.CLIENT_SERVICE_YAML)
         return _c03.table_diff(g)[1].get(data["diff_key"])
+    if str(data.get("harness", "")).endswith("h04_rest.py"):
+        from lib import apis, gen
+        env = dict(data.get("env") or {})
+        env["VERIF_EMITTED"] = gen.generate(apis.rest_api(), parameter="transport=grpc+rest").outdir
+        rep_, detail = ch.replay_call(os.path.join(core.VERIF, data["harness"]), data["call"], env)
+        return f"{data['call']} -> {detail}" if rep_ else None
     if str(data.get("harness", "")).endswith("h_client.py"):
         from checks import _client
         return _client.replay(chk, data)
